@@ -168,6 +168,14 @@ impl<'a> Tr<'a> {
         for (k, s) in stmts.iter().enumerate() {
             let is_last = k + 1 == n;
             match s {
+                Stmt::Item(syn::Item::Const(c)) => {
+                    // a constant local to the function: an ordinary immutable binding
+                    let t = self.conv_ty(&c.ty);
+                    let o = self.expr(&c.expr, Some(&t))?;
+                    lines.extend(o.pre);
+                    lines.push(format!("let {} := {}", lean_ident(&c.ident.to_string()), o.term));
+                    self.declare(&c.ident.to_string(), t);
+                }
                 Stmt::Item(_) => {}
                 Stmt::Macro(m) => {
                     let name = path_segs(&m.mac.path).last().cloned().unwrap_or_default();
@@ -196,7 +204,22 @@ impl<'a> Tr<'a> {
                             return Ok((lines, ty, div));
                         }
                         // tail expression: the value of the block
-                        let o = if want_value { self.expr(e, expect)? } else { self.stmt_expr_as_value(e)? };
+                        let unit_stmt = match peel_paren(e) {
+                            Expr::Assign(_) => true,
+                            Expr::Binary(b) => is_compound_assign(&b.op),
+                            _ => false,
+                        };
+                        let o = if want_value && !unit_stmt {
+                            self.expr(e, expect)?
+                        } else {
+                            let o = self.stmt_expr_as_value(e)?;
+                            if want_value && !o.diverges {
+                                if let Some(t) = expect {
+                                    self.unify(t, &Ty::Unit, e.span())?;
+                                }
+                            }
+                            o
+                        };
                         lines.extend(o.pre);
                         if o.diverges {
                             lines.push(o.term);
@@ -565,31 +588,41 @@ impl<'a> Tr<'a> {
                 Ok(Comp { pre: vec![], lines, ty, div })
             }
             Some(l) => {
-                // labelled block: `break 'l v` carries (value?, outs…) — the outs are re-read after the block,
-                // so the break payload is the tuple (value, outs)
+                // labelled block: `break 'l v` carries (v, outs…); falling off the end yields the same shape
                 let vt = match expect {
-                    Some(t) => t.clone(),
-                    None => self.sub.fresh(),
+                    Some(t) if want_value => t.clone(),
+                    _ => self.sub.fresh(),
                 };
-                // payload of break = (value, outs…): we model the block value only; outs assigned before a
-                // `break 'l` inside the block would be lost, so refuse blocks that both assign outs and break.
                 let parent_eps = self.cur_eps();
                 let vph = self.ph("lty", &[&vt]);
-                let eps = format!("(LoopExit {} Unit {})", parent_eps, vph);
-                self.frames.push(Frame { label: Some(l), state: Vec::new(), is_loop: false, val_ty: vt.clone(), valued: false, breaks: 0, eps });
-                let r = self.block_lines(&b.stmts, outs, want_value, Some(&vt));
-                let fr = self.frames.pop().unwrap();
-                let (bl, ty, div) = r?;
-                if !outs.is_empty() {
-                    return self.err(b.span(), "labelled block that assigns outer variables");
+                let mut parts = vec![vph];
+                for o in outs {
+                    let t = self.lookup(o).unwrap();
+                    parts.push(self.ph("lty", &[&t]));
                 }
-                let _ = fr;
+                let beta = if parts.len() == 1 { parts[0].clone() } else { format!("({})", parts.join(" × ")) };
+                let eps = format!("(LoopExit {} Unit {})", parent_eps, beta);
+                self.frames.push(Frame { label: Some(l), state: outs.to_vec(), is_loop: false, val_ty: vt.clone(), valued: false, breaks: 0, eps });
+                let r = self.block_lines(&b.stmts, outs, true, Some(&vt));
+                self.frames.pop();
+                let (bl, _ty, _div) = r?;
                 let mut lines = vec!["(Rs.block (do".to_string()];
                 lines.extend(ind(bl, 4));
                 let last = lines.pop().unwrap();
                 lines.push(format!("{}))", last));
-                let ty = if div { vt } else { ty };
-                Ok(Comp { pre: vec![], lines, ty, div: false })
+                if want_value {
+                    return Ok(Comp { pre: vec![], lines, ty: vt, div: false });
+                }
+                // drop the value, keep the outs
+                let v = self.fresh("v");
+                let mut out_lines = vec!["(do".to_string()];
+                let mut inner = Vec::new();
+                push_bind(&mut inner, &format!("let {} ← ", Self::bind_pattern(Some(&v), outs)), lines);
+                inner.push(Self::pure_line(None, outs));
+                out_lines.extend(ind(inner, 4));
+                let last = out_lines.pop().unwrap();
+                out_lines.push(format!("{})", last));
+                Ok(Comp { pre: vec![], lines: out_lines, ty: Ty::Unit, div: false })
             }
         }
     }
